@@ -374,6 +374,8 @@ pub enum E {
     Case(Vec<(E, E)>, Option<Box<E>>),
     /// tuple comparison `(a, b) op (c, d)`
     TupleCmp(Vec<E>, Op, Vec<E>),
+    /// `Expr::current_date()` / `current_time()` / `current_timestamp()`
+    Keyword(u8),
     /// `(c1, c2) IN ((v, v), ..)` through `in_tuples` (bound value tuples)
     InTuples(Vec<E>, Vec<(i64, i64)>),
     Exists,
@@ -655,6 +657,11 @@ impl E {
                     SimpleExpr::from(t).in_tuples(rows.clone())
                 }
             }
+            E::Keyword(k) => match k % 3 {
+                0 => Expr::current_date().into(),
+                1 => Expr::current_time().into(),
+                _ => Expr::current_timestamp().into(),
+            },
             E::Exists => Expr::exists(subquery()),
             E::ScalarSub => SimpleExpr::SubQuery(None, Box::new(subquery().into_sub_query_statement())),
             E::Quantified(x, op, q) => {
@@ -798,6 +805,7 @@ impl E {
                 let cell = |v: i64| if params { PT::Param(None) } else { PT::Num(v.to_string()) };
                 PT::In(false, Box::new(PT::Tuple(cols.iter().map(|e| e.expect(d, params)).collect())), rows.iter().map(|(x, y)| PT::Tuple(vec![cell(*x), cell(*y)])).collect())
             }
+            E::Keyword(k) => PT::Kw(["CURRENT_DATE", "CURRENT_TIME", "CURRENT_TIMESTAMP"][(*k % 3) as usize].into()),
             E::Exists => PT::Sub(Some("EXISTS".into()), sub_text(d, params)),
             E::ScalarSub => PT::Sub(None, sub_text(d, params)),
             E::Quantified(x, op, q) => {
@@ -902,7 +910,7 @@ impl E {
                 let ri: Option<Vec<String>> = r.iter().map(|e| e.ref_sqlite()).collect();
                 format!("(({}) {} ({}))", li?.join(", "), op.text(), ri?.join(", "))
             }
-            E::InTuples(..) => return None,
+            E::InTuples(..) | E::Keyword(_) => return None,
             E::Exists => "(EXISTS (SELECT \"p\" FROM \"tt\" WHERE \"id\" < 5))".into(),
             E::ScalarSub => "(SELECT \"p\" FROM \"tt\" WHERE \"id\" < 5)".into(),
             E::Quantified(..) => return None,
@@ -1139,6 +1147,7 @@ pub fn expr(d: Dialect, depth: u32, engine: bool) -> BoxedStrategy<E> {
         ];
         if !engine {
             choices.push((1, Just(E::ScalarSub).boxed()));
+            choices.push((1, (0u8..3).prop_map(E::Keyword).boxed()));
             choices.push((
                 1,
                 (proptest::collection::vec(inner.clone(), 2..3), proptest::sample::select(vec![Op::Eq, Op::Ne, Op::Lt]), proptest::collection::vec(inner.clone(), 2..3))
